@@ -286,6 +286,9 @@ def oracle_fs_hist(c):
                 out.append(("has-answered-wrongly", "%s: %s" % (where, o)))
         check_ls(op.get("ls"), list(expected), "after " + where, out)
     check_ls(c.get("final"), list(expected), "at the end", out)
+    fds = c.get("fds") or [0, 0]
+    if fds[0] >= 0 and fds[1] > fds[0]:
+        out.append(("file-descriptor-left-open", "%d descriptors before the history, %d after" % (fds[0], fds[1])))
     if c.get("strays", "ok") != "ok":
         out.append(("foreign-file-touched", c["strays"]))
     return out
